@@ -127,6 +127,22 @@ func pwStandard(c *ctx, r *Report, mode string, per int, bases bool) error {
 			return err
 		}
 	}
+	if bases && mode == "diag" {
+		// two defects at once (a defect must not hide the diagnostics of another one): mutants of mutants of the base workflows
+		nFirst, nSecond := 120, 25
+		if !c.quick {
+			nFirst, nSecond = 1500, 60
+		}
+		var all []string
+		for _, name := range []string{"a.yml", "b.yml", "c.yml"} {
+			for _, m1 := range pwMutants(wfBases[name], rng, nFirst) {
+				all = append(all, pwMutants(m1, rng, nSecond)...)
+			}
+		}
+		if _, err := pwTie(c, r, all, "mutant of a mutant of a base workflow", mode); err != nil {
+			return err
+		}
+	}
 	r.Notes = append(r.Notes, fmt.Sprintf("parsewf tie (parse.go vs AL.PW, all diagnostics + whole AST): %d sources", r.Evaluations-n0))
 	return nil
 }
